@@ -42,12 +42,16 @@ from .parameters import (
 def _extract_params_from_symb(
     statements: Statements, symbol_name: str, pset: Parameters
 ) -> Parameter:
-    terms = {
-        symb.name
-        for symb in statements.before_odes.full_expression(Expr.symbol(symbol_name)).free_symbols
-    }
-    theta_name = terms.intersection(pset.names).pop()
-    return pset[theta_name]
+    expr = statements.before_odes.full_expression(Expr.symbol(symbol_name))
+    # NOTE: Prefer the parameters of the numerator (a rate constant such as K = CL/V stands for its
+    # clearance) and never let the choice depend on the iteration order of a set
+    numer, _ = expr.as_numer_denom()
+    for candidate in (numer, expr):
+        terms = {symb.name for symb in candidate.free_symbols}
+        for name in pset.names:  # NOTE: In the order of the parameters of the model
+            if name in terms:
+                return pset[name]
+    raise KeyError(symbol_name)
 
 
 def _find_noncov_theta(model, paramsymb, full=False):
